@@ -437,14 +437,17 @@ class World:
             body = (c["banner"][1] + "\n") if c.get("banner") else ""
             body += f'echo "cs {i}.{k} $(date +%s%N)" >> {tr}; {sl}echo "ce {i}.{k} $(date +%s%N)" >> {tr}; '
             cj = {}
+            # a check marked "self" looks at a marker that the target's OWN command sets (healthy) or removes (failing): it can pass
+            # before the command and fail after it
+            FC = (F + ".m") if c.get("fail") == "self" else F
             if c["expected"]:
                 if c.get("fail"):
-                    body += f"if test -f {F}; then echo ok; else echo bad; fi"
+                    body += f"if test -f {FC}; then echo ok; else echo bad; fi"
                 else:
                     body += "echo ok"
                 cj["expected_output"] = "ok"
             elif c.get("fail"):
-                body += f"test -f {F}"
+                body += f"test -f {FC}"
             else:
                 body += "true"
             cj["command"] = body
@@ -491,6 +494,8 @@ class World:
                 mk = (f"for k in $(seq 0 {len(dirs) - 1}); do mkdir -p d{i}_$k/sub; printf '%s\\n' \"d{i}_$k/a of t{i}\" > d{i}_$k/a.txt; "
                       f"printf '%s\\n' \"d{i}_$k/sub/b of t{i}\" > d{i}_$k/sub/b.txt; done")
             parts.append(f"if test -f {F}; then {mk}; fi" if kind == "missing-dir" else mk)
+        if kind == "check-self":
+            parts.append(f"if test -f {F}; then touch {F}.m; else rm -f {F}.m; fi")
         if t["bin"]:
             parts.append(f"printf '#!/bin/sh\\necho tool{i}\\n' > tool{i}.sh; chmod +x tool{i}.sh")
         parts.append(f'echo "e {i} $(date +%s%N)" >> {tr}')
@@ -1089,6 +1094,8 @@ def designed_worlds(rng, focus):
       ff-bystanders       fail-fast, 1-3 workers, one failing target, nine independent quick bystanders (more ready targets than workers),
                           most of them with a `timeout:`. Only the jobs already in the pool's channel (<= num_workers) can start after
                           the failure, and they do so at once: see the statistic `post_failure_starts` and its oracle
+      check-flips         output checks that pass before the command and fail after it (the command itself flips what the check looks at):
+                          healthy build, switch the failure on + taint, build, heal, build
       first-lines         one target (and one output check) per (character width class x length around 64..73 / 128 / 256 / 4096)
       many-failures-N     keep-going, N independent failing leaves for N around multiples of 256, one healthy target
       interrupt-queued    SIGINT / SIGTERM while more targets are ready than there are workers, then another build"""
@@ -1112,6 +1119,17 @@ def designed_worlds(rng, focus):
             T.append(_blank_target(i + 1, deps=[i]))
         out.append(dict(base, designed="check-orders", cfg=dict(cfg0, num_workers=8), targets=T,
                         history=[{"op": "build"}, {"op": "nothing"}, {"op": "build"}]))
+        # a check that passes BEFORE the command and fails AFTER it: healthy build (marker set), then the designed failure is switched on
+        # and the targets are tainted (they execute although their checks pass on the state of the previous build; the command removes
+        # the marker), then heal. Exit-status and expected_output flavour, plain and no-cache, each with a dependant.
+        T = []
+        for exp, tags in ((False, []), (True, []), (False, ["no-cache"]), (True, ["no-cache"])):
+            i = len(T)
+            T.append(_blank_target(i, fail="check-self", tags=list(tags), checks=[{"sleep": 0, "expected": exp, "fail": "self", "banner": None}]))
+            T.append(_blank_target(i + 1, deps=[i]))
+        T.append(_blank_target(len(T)))
+        out.append(dict(base, designed="check-flips", healed_at_start=True, cfg=dict(cfg0, num_workers=4), targets=T,
+                        history=[{"op": "build"}, {"op": "break+taint-failing"}, {"op": "build"}, {"op": "heal", "seed": 7}, {"op": "build"}]))
         for workers in (1, 2, 3, 1, 2, 3):
             T = [_blank_target(0, fail="exit", noise=rng.choice([0, 1, 300]), sleep=0.2)]
             for i in range(1, 10):
